@@ -22,6 +22,36 @@ CHECKS = {
     ),
 }
 
+PROG_NOTE = ("Trusted: TLC; the TLA+ reference semantics as oracle (cross-checked in the model against the translation "
+             "scheme on every enumerated program); the harness' token joiner and JSON<->value conversion; simplicity-lang's "
+             "decoder and Bit Machine as observers. Bounded families; nothing claimed outside them.")
+CHECKS["C01"] = dict(
+    category="model_checking",
+    technique="TLA+ source semantics + translation scheme model-checked equal by TLC; every explored program x witness "
+              "assignment replayed into compiler, decoder and Bit Machine",
+    text="TLC enumerates a program family covering the expression forms over a small type universe and, inside the model, "
+         "proves book semantics = Simplicity semantics of the translation for every witness assignment; the same behaviours "
+         "(program text + expected verdict vector) are replayed against the real pipeline, debug symbols off and on.",
+    note=PROG_NOTE, design="5 (C01)")
+CHECKS["C02"] = dict(
+    category="model_checking",
+    technique="lifecycle replay of TLC-generated programs x witness maps: CMR equality, decode of own encoding, Bit Machine totality",
+    text="For every generated (program, witness assignment): redeem CMR = commit CMR, the encoding decodes to the same CMR, "
+         "execution never panics. The family contains witnesses that are never or partly inspected (the shape that exposed "
+         "the defect fixed by the `fix:` commit in /repo).",
+    note=PROG_NOTE, design="5 (C02)")
+CHECKS["C03"] = dict(
+    category="model_checking",
+    technique="TLC invariant CodegenTotal on the implementation-shaped code-generation model + replay of instantiate/commit on every accepted text",
+    text="Model: the scope/path translation of compile.rs never fails on a well-formed program. Code: every accepted text "
+         "instantiates without `Failed to compile`/panic and commits to a 1->1 program.",
+    note=PROG_NOTE, design="5 (C03)")
+CHECKS["C14"] = dict(
+    category="model_checking",
+    technique="TLC invariant DebugNeutral (debug wrapper is behaviour neutral) + replay of debug/non-debug builds on all witness assignments",
+    text="Model and code: debug build and plain build succeed on exactly the same witness assignments, both equal to the source semantics.",
+    note=PROG_NOTE + " Marker-to-call-site resolution is added with the debug-symbol family.", design="5 (C14)")
+
 PENDING = {}
 
 ALL = ["C%02d" % i for i in range(1, 21)]
